@@ -55,8 +55,11 @@ def build(work):
                      {'id': 'u-3', 'ili': 'i0', 'partOfSpeech': 'n', 'meta': None},
                      {'id': 'u-4', 'ili': 'i5', 'partOfSpeech': 'n', 'meta': None},
                      {'id': 'u-5', 'ili': 'i6', 'partOfSpeech': 'n', 'meta': None}]}
+    # 'v': a single synset for the taxonomy's root concept: both of its borrowed hyponyms are placeholders
+    v = {'id': 'v', 'label': 'v', 'language': 'en', 'email': 'e', 'license': 'l', 'version': '1', 'meta': None,
+         'synsets': [{'id': 'v-1', 'ili': 'i9', 'partOfSpeech': 'n', 'meta': None}]}
     lmf.dump({'lmf_version': '1.0', 'lexicons': [taxonomy_lexicon(), lmfgen.full_lexicon('1.0', meta=lmfgen.META_FULL),
-                                                 u]}, src)
+                                                 u, v]}, src)
     wn.add(src, progress_handler=None)
     return src
 
